@@ -2130,18 +2130,25 @@ impl NullableInterval {
                     // NULL is distinct from NULL -> False
                     (Self::Null { .. }, Self::Null { .. }) => Interval::FALSE,
                     // x is distinct from y -> x != y,
-                    // if at least one of them is never null.
-                    (Self::NotNull { .. }, _) | (_, Self::NotNull { .. }) => {
-                        let lhs_values = self.values();
-                        let rhs_values = rhs.values();
-                        match (lhs_values, rhs_values) {
-                            (Some(lhs_values), Some(rhs_values)) => {
-                                lhs_values.equal(rhs_values)?.not()?
-                            }
-                            (Some(_), None) | (None, Some(_)) => Interval::TRUE,
-                            (None, None) => unreachable!("Null case handled above"),
-                        }
-                    }
+                    // if both of them are never null.
+                    (
+                        Self::NotNull { values: lhs_values },
+                        Self::NotNull { values: rhs_values },
+                    ) => lhs_values.equal(rhs_values)?.not()?,
+                    // NULL is distinct from any non-null value -> True
+                    (Self::NotNull { .. }, Self::Null { .. })
+                    | (Self::Null { .. }, Self::NotNull { .. }) => Interval::TRUE,
+                    // If one side is never null and the other one may be null,
+                    // the result is either x != y (when both are non-null), or
+                    // True (when the nullable side is null).
+                    (
+                        Self::NotNull { values: lhs_values },
+                        Self::MaybeNull { values: rhs_values },
+                    )
+                    | (
+                        Self::MaybeNull { values: lhs_values },
+                        Self::NotNull { values: rhs_values },
+                    ) => lhs_values.equal(rhs_values)?.not()?.union(Interval::TRUE)?,
                     _ => Interval::TRUE_OR_FALSE,
                 };
                 // IsDistinctFrom never returns null.
